@@ -20,6 +20,7 @@ Explained(e) ==
   IF RoundTripOK(e) THEN TRUE
   ELSE \/ (DevDigitStart(e) /\ Known(e, "ident_start_unescaped"))
        \/ (DevSymbol(e) /\ Known(e, "nonascii_symbol_raw_rejected"))
+       \/ (DevSymbolDigit(e) /\ Known(e, "nonascii_symbol_raw_rejected") /\ Known(e, "ident_start_unescaped"))
        \/ (DevAttrNs(e) /\ Known(e, "attr_universal_ns_rule_rejected"))
        \/ (DevTwoIds(e) /\ Known(e, "second_id_replaces_first"))
 
